@@ -1,6 +1,40 @@
 """Additional rules of the thorough tier (compile-fail witnesses, dependency frontier)."""
+import os, re, shutil, subprocess
+from core.report import Rule, VERIF
+
+WITNESSES = {"C07": ["W1", "W2", "W3", "W8"], "C09": ["W4"], "C03": ["W5", "W6", "W7"], "C16": ["W5", "W6", "W7"], "C11": ["W2"], "C12": ["W2", "W3"]}
+
+
+def rule_witness(prop, ctx):
+    want = WITNESSES.get(prop)
+    R = Rule("R-WITNESS", "compile-fail witnesses (rustc rejects the violating program with the expected error code; the twin differing by one line compiles); nothing is executed", floor=len(want or []))
+    if not want:
+        return None
+    if os.path.realpath(ctx.repo) != "/repo":
+        R.note("witness crate path-depends on /repo; skipped for %s" % ctx.repo)
+        R.floor = 0
+        return R.finish()
+    wdir = os.path.join(VERIF, "sa/witness")
+    lock = os.path.join(wdir, "Cargo.lock")
+    if not os.path.exists(lock) and os.path.exists("/repo/Cargo.lock"):
+        shutil.copy("/repo/Cargo.lock", lock)
+    env = dict(os.environ, CARGO_TARGET_DIR=os.path.join(VERIF, ".cache/witness-target"), CARGO_NET_OFFLINE="true")
+    r = subprocess.run(["cargo", "+nightly", "test", "--doc", "--offline"], cwd=wdir, env=env, capture_output=True, text=True)
+    res = {}
+    for m in re.finditer(r"^test src/lib\.rs - (W\d+) \(line \d+\) - (compile fail|compile) \.\.\. (\w+)", r.stdout, re.M):
+        res.setdefault(m.group(1), {})[m.group(2)] = m.group(3)
+    for w in want:
+        R.instance()
+        got = res.get(w, {})
+        ok = got.get("compile fail") == "ok" and got.get("compile") == "ok"
+        R.check(ok, "%s:witness:%s" % (prop, w), "witness %s: violating program %s, compiling twin %s%s" % (w, got.get("compile fail", "not run"), got.get("compile", "not run"), "" if res else " — " + (r.stdout + r.stderr)[-300:]),
+                sample={"witness": w, "violating_program_rejected": got.get("compile fail"), "twin_compiles": got.get("compile")})
+    return R.finish()
 
 
 def extra_rules(prop, ctx):
     out = []
+    w = rule_witness(prop, ctx)
+    if w is not None:
+        out.append(w)
     return out
